@@ -178,8 +178,8 @@ def Value.wire : Value → List Str
   | .text [] => []
   | .text s => [s]
   | .list vs => vs
-  | .bool true => ['1']
-  | .bool false => ['0']
+  | .bool true => [['1']]
+  | .bool false => [['0']]
 
 /-- 7.c: `var<` then every value, sorted, each followed by `<` -/
 def fieldStrSpec (f : Field) : Str :=
